@@ -60,7 +60,8 @@ def apply_bar(b, a, k=0, shared=None):
     if op == "set_item":
         # a list holding a [name, octave] pair is handed over as a NoteContainer (Bar.__setitem__ feeds list items one by one)
         haspair = any(i["t"] == "pair" for i in a["arg"]["items"])
-        b[a["i"] - 1] = content(a["arg"], "nc" if haspair else forms[k % 3]) if not a["arg"]["rest"] else None
+        idx = a["i"] - 1 if k % 2 else a["i"] - 1 - len(b)      # the same entry counted from the end (a negative index) every other time
+        b[idx] = content(a["arg"], "nc" if haspair else forms[k % 3]) if not a["arg"]["rest"] else None
         return True
     if op == "place_at":
         b.place_notes_at(content(a["arg"], "list"), b.bar[a["i"] - 1][0])
